@@ -197,10 +197,11 @@ def _bad_op(rng, sh, k, corrupt_fn=None):
         # type follows
         nm = rng.choice(ids)
         tg = rng.choice(["zn", "zm"])
+        via = rng.choice(["attr", "attr", "set"])
         return kind, [{"op": "set_tag", "id": nm, "tag": tg, "value": rng.choice([1, 2.5, "abc"])},
-                      {"op": "set_tag", "id": nm, "tag": tg, "value": None},
-                      {"op": "set_tag", "id": nm, "tag": tg, "value": rng.choice(["bad\tvalue", "a\nb", ""])},
-                      {"op": "set_tag", "id": nm, "tag": tg, "value": rng.choice([5, "ok", [1, 2]])}]
+                      {"op": "set_tag", "id": nm, "tag": tg, "value": None, "via": via},
+                      {"op": "set_tag", "id": nm, "tag": tg, "value": rng.choice(["bad\tvalue", "a\nb", ""]), "via": via},
+                      {"op": "set_tag", "id": nm, "tag": tg, "value": rng.choice([5, "ok", [1, 2]]), "via": via}]
     if kind == "queued_then_flush" and v == "gfa1":
         # (only has an effect while the version is undecided) lines queued, one of which will be refused, then
         # the queue is processed by a direct call
